@@ -35,4 +35,5 @@ static inline uint64_t fnv_str(uint64_t h, const char *s) { return fnv_bytes(h, 
 int hx_in_child(void (*fn)(void *arg, FILE *o), void *arg, char *outbuf, size_t outcap);
 
 extern const hx_op ops_c14[];
+extern const hx_op ops_c16[];
 #endif
